@@ -4,7 +4,7 @@
    where the kernel's walk is refused with EACCES (and, on a link-free path, at the first traversed
    directory lacking search permission). *)
 From Avfs Require Import Base PathModel PathSpec PathProofs PathCleanProofs PathIterProofs.
-From Avfs Require Import MemFS MemFile World Posix WalkBridge WalkSym.
+From Avfs Require Import MemFS MemFile World Posix WalkBridge WalkSym WalkReadlink StepEq.
 
 (* ---- bits ------------------------------------------------------------------------------------- *)
 Lemma testbit_7 (i : N) : N.testbit 7 i = N.ltb i 3.
@@ -255,3 +255,238 @@ Proof.
       rewrite (search_loop_on h v Hos _ slm (v_root v) (v_root v) _ 0 None [] cs c Hok (pi_new_before (c :: cs))). cbv zeta.
       rewrite root_check_kperm, Nat.eqb_refl, Hp. rewrite kwalk_S, Hd, Hp. cbn. auto.
 Qed.
+
+(* ---- goal 5: ownership and mode of everything the calls create --------------------------------------------- *)
+Lemma upd_length (h : heap) (i : nat) (x : node) : length (upd h i x) = length h.
+Proof. revert i. induction h as [|y h IH]; intros [|i]; cbn [upd length]; auto. Qed.
+
+Definition meta_at (h : heap) (i : nat) : option meta := option_map node_meta (get h i).
+
+Lemma meta_at_upd (h : heap) (i j : nat) (x : node) :
+  (forall y, get h i = Some y -> node_meta x = node_meta y) -> meta_at (upd h i x) j = meta_at h j.
+Proof.
+  intros Hm. unfold meta_at. destruct (Nat.eq_dec i j) as [->|Hne].
+  - destruct (get h j) as [y|] eqn:Hg.
+    + rewrite wget_upd_same by (exact (wget_lt _ _ _ Hg)). cbn. rewrite (Hm y eq_refl). reflexivity.
+    + assert (Hlen : length h <= j) by (apply nth_error_None; exact Hg).
+      replace (get (upd h j x) j) with (@None node); [reflexivity|]. symmetry. apply nth_error_None. rewrite upd_length. exact Hlen.
+  - rewrite wget_upd_other by exact Hne. reflexivity.
+Qed.
+
+Lemma add_child_length (h : heap) (p : nat) (name : str) (c : nat) : length (add_child h p name c) = length h.
+Proof. unfold add_child. destruct (get h p) as [[ch m| |]|]; try reflexivity. apply upd_length. Qed.
+
+Lemma meta_at_add_child (h : heap) (p : nat) (name : str) (c i : nat) : meta_at (add_child h p name c) i = meta_at h i.
+Proof.
+  unfold add_child. destruct (get h p) as [[ch m| |]|] eqn:Hg; try reflexivity.
+  apply meta_at_upd. intros y Hy. rewrite Hg in Hy. injection Hy as <-. reflexivity.
+Qed.
+
+Lemma meta_at_new (h : heap) (x : node) : meta_at (h ++ [x]) (length h) = Some (node_meta x).
+Proof. unfold meta_at, get. rewrite nth_error_app2 by apply Nat.le_refl. rewrite Nat.sub_diag. reflexivity. Qed.
+
+Lemma meta_at_old (h : heap) (x : node) (i : nat) : i < length h -> meta_at (h ++ [x]) i = meta_at h i.
+Proof. intros Hi. unfold meta_at, get. rewrite nth_error_app1 by exact Hi. reflexivity. Qed.
+
+(* what a creating call leaves behind: exactly one new node, at the end of the heap, with meta [m];
+   the meta of every older node is unchanged *)
+Definition allocated (s s' : fsys) (m : meta) : Prop :=
+  length (f_heap s') = S (length (f_heap s))
+  /\ meta_at (f_heap s') (length (f_heap s)) = Some m
+  /\ forall i, i < length (f_heap s) -> meta_at (f_heap s') i = meta_at (f_heap s) i.
+
+Definition dir_meta (v : view) (perm : N) : meta := new_meta v (dir_mode (v_os v)) (N.land perm (511 + MODE_STICKY)).
+Definition file_meta (v : view) (perm : N) : meta := new_meta v (file_mode (v_os v)) perm.
+Definition link_meta (v : view) : meta :=
+  {| m_mode := N.lor MODE_SYMLINK 511; m_uid := us_uid (v_user v); m_gid := us_gid (v_user v) |}.
+
+Lemma create_dir_allocated (s : fsys) (v : view) (parent : nat) (name : str) (perm : N) :
+  allocated s (fst (create_dir s v parent name perm)) (dir_meta v perm) /\ snd (create_dir s v parent name perm) = length (f_heap s).
+Proof.
+  unfold create_dir, allocated. cbn [fst snd f_heap]. split; [|reflexivity].
+  rewrite add_child_length, app_length, Nat.add_comm. cbn [length plus]. split; [reflexivity|]. split.
+  - rewrite meta_at_add_child, meta_at_new. reflexivity.
+  - intros i Hi. rewrite meta_at_add_child. apply meta_at_old. exact Hi.
+Qed.
+
+Lemma create_file_allocated (s : fsys) (v : view) (parent : nat) (name : str) (perm : N) :
+  allocated s (fst (create_file s v parent name perm)) (file_meta v perm) /\ snd (create_file s v parent name perm) = length (f_heap s).
+Proof.
+  unfold create_file, allocated. cbn [fst snd f_heap]. split; [|reflexivity].
+  rewrite add_child_length, app_length, Nat.add_comm. cbn [length plus]. split; [reflexivity|]. split.
+  - rewrite meta_at_add_child, meta_at_new. reflexivity.
+  - intros i Hi. rewrite meta_at_add_child. apply meta_at_old. exact Hi.
+Qed.
+
+Lemma create_symlink_allocated (s : fsys) (v : view) (parent : nat) (name link : str) :
+  allocated s (create_symlink s v parent name link) (link_meta v).
+Proof.
+  unfold create_symlink, allocated. cbn [f_heap].
+  rewrite add_child_length, app_length, Nat.add_comm. cbn [length plus]. split; [reflexivity|]. split.
+  - rewrite meta_at_add_child, meta_at_new. reflexivity.
+  - intros i Hi. rewrite meta_at_add_child. apply meta_at_old. exact Hi.
+Qed.
+
+(* Mkdir *)
+Theorem mkdir_created (s : fsys) (v : view) (name : str) (perm : N) :
+  (snd (mkdir s v name perm) = ROk /\ allocated s (fst (mkdir s v name perm)) (dir_meta v perm))
+  \/ (snd (mkdir s v name perm) <> ROk /\ fst (mkdir s v name perm) = s).
+Proof.
+  unfold mkdir. destruct name as [|x name]; [right; split; [discriminate|reflexivity]|].
+  destruct (_ || _); [right; split; [discriminate|reflexivity]|].
+  destruct (sr_parent _) as [parent|]; [|right; split; [discriminate|reflexivity]].
+  destruct (negb _); [right; split; [discriminate|reflexivity]|].
+  destruct (alookup _ _ _); [right; split; [discriminate|reflexivity]|].
+  left. split; [reflexivity|]. apply create_dir_allocated.
+Qed.
+
+(* Symlink *)
+Theorem symlink_created (s : fsys) (v : view) (oldname newname : str) :
+  (snd (symlink s v oldname newname) = ROk /\ allocated s (fst (symlink s v oldname newname)) (link_meta v))
+  \/ (snd (symlink s v oldname newname) <> ROk /\ fst (symlink s v oldname newname) = s).
+Proof.
+  unfold symlink. destruct (_ || _); [right; split; [discriminate|reflexivity]|].
+  destruct (sr_parent _) as [parent|]; [|right; split; [discriminate|reflexivity]].
+  destruct (negb _); [right; split; [discriminate|reflexivity]|].
+  left. split; [reflexivity|]. apply create_symlink_allocated.
+Qed.
+
+(* OpenFile: either nothing is allocated (and no meta changes), or the file opened is the new node *)
+Definition metas_kept (s s' : fsys) : Prop :=
+  length (f_heap s') = length (f_heap s) /\ forall i, meta_at (f_heap s') i = meta_at (f_heap s) i.
+
+Lemma metas_kept_refl (s : fsys) : metas_kept s s.
+Proof. split; reflexivity. Qed.
+
+Theorem open_file_created (s : fsys) (v : view) (vi : nat) (name : str) (flag perm : N) :
+  metas_kept s (fst (open_file s v vi name flag perm))
+  \/ (allocated s (fst (open_file s v vi name flag perm)) (file_meta v perm)
+      /\ exists f, snd (open_file s v vi name flag perm) = inr f /\ hd_node f = Some (length (f_heap s))).
+Proof.
+  assert (OE : forall c (om : N),
+    metas_kept s (fst (match get (f_heap s) c with
+      | Some (NFile d k i m) =>
+          if negb (check_permission m (if has om OpenTruncate then N.lor om OpenWrite else om) (v_user v))
+          then (s, inl (RFail EPermDenied))
+          else if has om OpenCreateExcl then (s, inl (RFail EFileExists))
+          else
+            let d1 := if has om OpenTruncate then [] else d in
+            let at_ := if has om OpenAppend then Z.of_nat (length d1) else 0%Z in
+            (with_heap s (upd (f_heap s) c (NFile d1 k i m)), inr (new_handle c vi name at_ om))
+      | Some (NDir _ m) =>
+          if has om OpenCreateExcl then (s, inl (RFail EFileExists))
+          else if has om OpenWrite || has om OpenCreate || has om OpenTruncate then (s, inl (RFail EIsADirectory))
+          else if negb (check_permission m om (v_user v)) then (s, inl (RFail EPermDenied))
+          else (s, inr (new_handle c vi name 0 om))
+      | _ => (s, inr (new_handle c vi name 0 om))
+      end))).
+  { intros c om. destruct (get (f_heap s) c) as [[ch m|d k i m|t m]|] eqn:Hg; try apply metas_kept_refl.
+    - destruct (has om OpenCreateExcl); [apply metas_kept_refl|]. destruct (_ || _); [apply metas_kept_refl|].
+      destruct (negb _); apply metas_kept_refl.
+    - destruct (negb _); [apply metas_kept_refl|]. destruct (has om OpenCreateExcl); [apply metas_kept_refl|].
+      cbv zeta. cbn [fst with_heap f_heap]. split; [apply upd_length|]. intros j. apply meta_at_upd.
+      intros y Hy. rewrite Hg in Hy. injection Hy as <-. reflexivity. }
+  unfold open_file. destruct name as [|x name]; [left; apply metas_kept_refl|]. cbv zeta.
+  destruct (_ || _); [left; apply metas_kept_refl|].
+  destruct (_ && _); [left; apply metas_kept_refl|].
+  destruct (is_not_exist _).
+  - destruct (negb (has _ OpenCreate)); [left; apply metas_kept_refl|].
+    destruct (sr_parent _) as [parent|]; [|left; apply metas_kept_refl].
+    destruct (negb (perm_on _ _ _ _)); [left; apply metas_kept_refl|].
+    destruct (alookup _ _ _) as [c|]; [left; apply OE|].
+    right. pose proof (create_file_allocated s v parent (pi_part (sr_pi (search_node s v (x :: name)
+             (if has (to_open_mode flag) OpenCreateExcl then SlLstat else SlEval)))) perm) as (A1 & A2).
+    destruct (create_file _ _ _ _ _) as [s1 c]. cbn [fst snd] in *. split; [exact A1|]. eexists. split; [reflexivity|].
+    cbn [new_handle hd_node]. rewrite A2. reflexivity.
+  - destruct (sr_child _) as [c|]; [left; apply OE|left; apply metas_kept_refl].
+Qed.
+
+(* WriteFile = OpenFile(O_WRONLY|O_CREATE|O_TRUNC) ; Write ; Close *)
+Lemma f_write_metas (s : fsys) (v : view) (f : handle) (b : list N) : metas_kept s (fst (fst (f_write s v f b))).
+Proof.
+  unfold f_write. destruct (hd_name f); [apply metas_kept_refl|]. destruct (hd_node f) as [c|]; [|apply metas_kept_refl].
+  unfold file_of. destruct (get (f_heap s) c) as [[ch m|d k i m|t m]|] eqn:Hg; try apply metas_kept_refl.
+  destruct (negb _); [apply metas_kept_refl|]. cbv zeta. cbn [fst with_heap f_heap]. split; [apply upd_length|].
+  intros j. apply meta_at_upd. intros y Hy. rewrite Hg in Hy. injection Hy as <-. reflexivity.
+Qed.
+
+Lemma allocated_then_kept (s s1 s2 : fsys) (m : meta) : allocated s s1 m -> metas_kept s1 s2 -> allocated s s2 m.
+Proof.
+  intros (A1 & A2 & A3) (K1 & K2). split; [congruence|]. split; [rewrite K2; exact A2|].
+  intros i Hi. rewrite K2. apply A3. exact Hi.
+Qed.
+
+Lemma metas_kept_trans (s s1 s2 : fsys) : metas_kept s s1 -> metas_kept s1 s2 -> metas_kept s s2.
+Proof. intros (A1 & A2) (K1 & K2). split; [congruence|]. intros i. rewrite K2. apply A2. Qed.
+
+Theorem write_file_created (s : fsys) (v : view) (name : str) (data : list N) (perm : N) :
+  metas_kept s (fst (write_file s v name data perm))
+  \/ allocated s (fst (write_file s v name data perm)) (file_meta v perm).
+Proof.
+  unfold write_file.
+  pose proof (open_file_created s v 0 name (O_WRONLY + O_CREATE + O_TRUNC) perm) as HO.
+  destruct (open_file s v 0 name (O_WRONLY + O_CREATE + O_TRUNC) perm) as [s1 [r|f]]; cbn [fst snd] in HO.
+  - left. apply metas_kept_refl.
+  - pose proof (f_write_metas s1 v f data) as HW.
+    destruct (f_write s1 v f data) as [[s2 f'] r]. cbn [fst] in HW.
+    assert (E : fst (match r with RInt _ => (s2, ROk) | _ => (s2, r) end) = s2) by (destruct r; reflexivity).
+    rewrite E. destruct HO as [HO|(HO & _)].
+    + left. exact (metas_kept_trans _ _ _ HO HW).
+    + right. exact (allocated_then_kept _ _ _ _ HO HW).
+Qed.
+
+(* MkdirAll: any number of new directories, all with the creator's ownership and mode *)
+Definition allocated_many (s s' : fsys) (m : meta) : Prop :=
+  length (f_heap s) <= length (f_heap s')
+  /\ (forall i, i < length (f_heap s) -> meta_at (f_heap s') i = meta_at (f_heap s) i)
+  /\ (forall i, length (f_heap s) <= i < length (f_heap s') -> meta_at (f_heap s') i = Some m).
+
+Lemma allocated_many_refl (s : fsys) (m : meta) : allocated_many s s m.
+Proof. split; [apply Nat.le_refl|]. split; [reflexivity|]. intros i Hi. lia. Qed.
+
+Lemma allocated_one_many (s s1 s2 : fsys) (m : meta) : allocated s s1 m -> allocated_many s1 s2 m -> allocated_many s s2 m.
+Proof.
+  intros (A1 & A2 & A3) (B1 & B2 & B3). split; [lia|]. split.
+  - intros i Hi. rewrite B2 by lia. apply A3. exact Hi.
+  - intros i Hi. destruct (Nat.lt_ge_cases i (length (f_heap s1))) as [Hlt|Hge].
+    + rewrite B2 by exact Hlt. assert (i = length (f_heap s)) as -> by lia. exact A2.
+    + apply B3. lia.
+Qed.
+
+Lemma mkdir_all_loop_created (v : view) (perm : N) : forall fuel s dn pi,
+  allocated_many s (mkdir_all_loop fuel s v dn pi perm) (dir_meta v perm).
+Proof.
+  induction fuel as [|fuel IH]; intros s dn pi; cbn [mkdir_all_loop]; [apply allocated_many_refl|].
+  destruct (alookup _ _ _); [apply allocated_many_refl|].
+  pose proof (create_dir_allocated s v dn (pi_part pi) perm) as (A & _).
+  destruct (create_dir s v dn (pi_part pi) perm) as [s1 c]. cbn [fst] in A.
+  destruct (pi_next (v_os v) pi) as [ok pi1]. destruct ok.
+  - exact (allocated_one_many _ _ _ _ A (IH s1 c pi1)).
+  - exact (allocated_one_many _ _ _ _ A (allocated_many_refl s1 _)).
+Qed.
+
+Theorem mkdir_all_created (s : fsys) (v : view) (path : str) (perm : N) :
+  allocated_many s (fst (mkdir_all s v path perm)) (dir_meta v perm).
+Proof.
+  unfold mkdir_all. cbv zeta. destruct (sr_child _) as [c|].
+  - destruct (get (f_heap s) c) as [[ch m|d k i m|t m]|].
+    + destruct (is_file_exists _); apply allocated_many_refl.
+    + apply allocated_many_refl.
+    + destruct (sr_parent _); [|apply allocated_many_refl]. destruct (negb _); [apply allocated_many_refl|].
+      apply mkdir_all_loop_created.
+    + destruct (sr_parent _); [|apply allocated_many_refl]. destruct (negb _); [apply allocated_many_refl|].
+      apply mkdir_all_loop_created.
+  - destruct (sr_parent _); [|apply allocated_many_refl]. destruct (negb _); [apply allocated_many_refl|].
+    apply mkdir_all_loop_created.
+Qed.
+
+(* the meta in question, spelled out: the caller's uid and gid, type bits | (perm & mask) &^ umask *)
+Lemma dir_meta_spec (v : view) (perm : N) :
+  m_uid (dir_meta v perm) = us_uid (v_user v) /\ m_gid (dir_meta v perm) = us_gid (v_user v)
+  /\ m_mode (dir_meta v perm) = N.lor (dir_mode (v_os v)) (N.ldiff (N.land perm (511 + MODE_STICKY)) (v_umask v)).
+Proof. unfold dir_meta, new_meta. cbn [m_uid m_gid m_mode]. rewrite land_dir_bits. auto. Qed.
+
+Lemma file_meta_spec (v : view) (perm : N) :
+  m_uid (file_meta v perm) = us_uid (v_user v) /\ m_gid (file_meta v perm) = us_gid (v_user v)
+  /\ m_mode (file_meta v perm) = N.lor (file_mode (v_os v)) (N.ldiff (N.land perm FILE_MODE_MASK) (v_umask v)).
+Proof. unfold file_meta, new_meta. cbn [m_uid m_gid m_mode]. auto. Qed.
